@@ -17,13 +17,13 @@ MUTANTS = [
   "        size = random.randint(self.min, self.max)\n        li = []\n        for i in range(size):\n            nv = rec(inner_type)\n            li.append(nv)\n        assert len(li) == size",
   "        size = random.randint(self.min, self.max + 1)\n        li = []\n        for i in range(size):\n            nv = rec(inner_type)\n            li.append(nv)\n        assert len(li) == size"),
  ("C03", "maxdepth-filter-off-by-one", G+"representations/tree/initializations.py",
-  "            x for x in alternatives if self.grammar.get_distance_to_terminal(x) <= (self.max_depth - ctx.depth)\n        ]\n        return self.random.choice(alternatives)\n\n    def validate",
-  "            x for x in alternatives if self.grammar.get_distance_to_terminal(x) <= (self.max_depth - ctx.depth) + 1\n        ]\n        return self.random.choice(alternatives)\n\n    def validate"),
+  "            x for x in alternatives if self.grammar.get_distance_to_terminal(x) <= (self.max_depth - ctx.depth)\n        ]\n        if not alternatives:\n            # only possible after backtracking has ruled out every production that fits",
+  "            x for x in alternatives if self.grammar.get_distance_to_terminal(x) <= (self.max_depth - ctx.depth) + 1\n        ]\n        if not alternatives:\n            # only possible after backtracking has ruled out every production that fits"),
  ("C03", "dsge-validate-le", G+"representations/grammatical_evolution/dynamic_structured_ge.py",
   "if self.max_depth < self.grammar.get_min_tree_depth():", "if self.max_depth <= self.grammar.get_min_tree_depth():"),
  ("C04", "maxdepth-filter-strict", G+"representations/tree/initializations.py",
-  "            x for x in alternatives if self.grammar.get_distance_to_terminal(x) <= (self.max_depth - ctx.depth)\n        ]\n        return self.random.choice(alternatives)\n\n    def validate",
-  "            x for x in alternatives if self.grammar.get_distance_to_terminal(x) < (self.max_depth - ctx.depth) or ctx.depth == 0\n        ]\n        return self.random.choice(alternatives)\n\n    def validate"),
+  "            x for x in alternatives if self.grammar.get_distance_to_terminal(x) <= (self.max_depth - ctx.depth)\n        ]\n        if not alternatives:\n            # only possible after backtracking has ruled out every production that fits",
+  "            x for x in alternatives if self.grammar.get_distance_to_terminal(x) < (self.max_depth - ctx.depth) or ctx.depth == 0\n        ]\n        if not alternatives:\n            # only possible after backtracking has ruled out every production that fits"),
  ("C04", "union-always-first-alternative", G+"representations/tree/initializations.py",
   "        t: type = decider.choose_production_alternatives(\n            starting_symbol,\n            get_generic_parameters(starting_symbol),\n            context,\n        )",
   "        t: type = get_generic_parameters(starting_symbol)[0]"),
@@ -42,8 +42,8 @@ MUTANTS = [
  ("C08", "stack-set-order", G+"representations/stackgggp/__init__.py",
   "    all_stack_types = ordered_stack_types(g)\n", "    all_stack_types = g.get_all_mentioned_symbols()\n"),
  ("C08", "decider-iterates-set", G+"representations/tree/initializations.py",
-  "        alternatives = [\n            x for x in alternatives if self.grammar.get_distance_to_terminal(x) <= (self.max_depth - ctx.depth)\n        ]\n        return self.random.choice(alternatives)\n\n    def validate",
-  "        alternatives = list({\n            x for x in alternatives if self.grammar.get_distance_to_terminal(x) <= (self.max_depth - ctx.depth)\n        })\n        return self.random.choice(alternatives)\n\n    def validate"),
+  "        alternatives = [\n            x for x in alternatives if self.grammar.get_distance_to_terminal(x) <= (self.max_depth - ctx.depth)\n        ]\n        if not alternatives:\n            # only possible after backtracking has ruled out every production that fits",
+  "        alternatives = list({\n            x for x in alternatives if self.grammar.get_distance_to_terminal(x) <= (self.max_depth - ctx.depth)\n        })\n        if not alternatives:\n            # only possible after backtracking has ruled out every production that fits"),
  ("C09", "ge-mutate-in-place", G+"representations/grammatical_evolution/ge.py",
   "        clone = [i for i in genotype.dna]\n        clone[rindex] = random.randint(0, sys.maxsize)", "        clone = genotype.dna\n        clone[rindex] = random.randint(0, sys.maxsize)"),
  ("C09", "dsge-crossover-shares-lists", G+"representations/grammatical_evolution/dynamic_structured_ge.py",
